@@ -53,8 +53,10 @@ def real_build(name, direction, m, uid, tid, pid):
 
 
 def has_delim(frame):
-    """bytes of a binary frame between its delimiters that equal a delimiter (known finding binary-framer-escaping)"""
-    return any(b in (0x7B, 0x7D) for b in frame[1:-1])
+    """is this binary frame inside the scope of the known finding binary-framer-escaping: a delimiter byte after the unit id
+    (function code, data or CRC: the sender doubles it only in the data, the receiver never un-doubles), or a unit id of
+    0x7D.  A unit id of 0x7B alone is outside it: such frames are built and received like any other."""
+    return any(b in (0x7B, 0x7D) for b in frame[2:-1]) or (len(frame) > 2 and frame[1] == 0x7D)
 
 
 def deliveries(calls):
